@@ -2334,7 +2334,89 @@ def context_holds_what_is_attached(ck, rule):
           "RecursiveContext.update(%r, %s): %s - what with_context_args / with_prevent_further_calls attach is not what nested calls see "
           "(an override that comes out as None is inherited from the caller instead of replacing it)" % bad_u[0],
           ufa.where())
-    return {"update": oku}
+    # (c) InvocationContext.update_recursive / update_local answer a new invocation context in which the addressed part holds the
+    # value and the other part is the receiver's (read the same way; where the class cannot be read the shape rule of R2 decides)
+    out = {"update": oku}
+    try:
+        out["scopes"] = _scope_updates_model(ck, ci, fields, attached, read)
+    except AnalysisError:
+        out["scopes"] = None
+    return out
+
+
+def _scope_updates_model(ck, rci, rfields, attached, read):
+    ici = ck.repo.cls("context.InvocationContext")
+    lci = ck.repo.cls("context.LocalContext")
+    CA = "context_args"
+    lbase = [r for r, _ in explore(ck, lci.qual, lambda rd: rd.construct(lci, [], {}, lci.node)) if r is not _RAISES]
+    if not lbase or not lbase[0].d:
+        raise AnalysisError("LocalContext: a default construction stores no field")
+    lfields = list(lbase[0].d)
+    verdict = {}
+    for meth, part, other, pci, pfields, key in (("update_recursive", "recursive", "local", rci, rfields, CA if CA in rfields else rfields[0]),
+                                                  ("update_local", "local", "recursive", lci, lfields, lfields[0])):
+        m = ck.repo.find_method(ici, meth)
+        if m is None:
+            raise AnalysisError("InvocationContext.%s not found" % meth)
+        ok = True
+        for kind in ("none", "empty", "full"):
+            v = attached(kind)
+
+            def scenario(rd, v=v):
+                me = _MObj(ici)
+                parts = {}
+                for nm_, c_, fs_ in (("recursive", rci, rfields), ("local", lci, lfields)):
+                    o = _MObj(c_)
+                    o.d = {g: _Sym("the receiver's %s.%s" % (nm_, g)) for g in fs_}
+                    parts[nm_] = o
+                me.d = dict(parts)
+                snap = {n_: dict(o.d) for n_, o in parts.items()}
+                return me, parts, snap, rd.call_fn(m, [me, key, v], {}, m.node)
+            runs = explore(ck, ici.qual, scenario)
+            if not any(r is not _RAISES for r, _ in runs):
+                ok = False
+            for r, rd in runs:
+                if r is _RAISES:
+                    continue
+                me, parts, snap, new = r
+                if not isinstance(new, _MObj) or new is me or new.ci is not ici or me.d != parts or any(parts[n_].d != snap[n_] for n_ in parts):
+                    ok = False
+                    continue
+                np_, no_ = read(rd, new, part), read(rd, new, other)
+                if not (isinstance(np_, _MObj) and np_.ci is pci and np_ is not parts[part] and rd.denotes(read(rd, np_, key), v)
+                        and all(read(rd, np_, g) is snap[part][g] for g in pfields if g != key)):
+                    ok = False
+                if not (isinstance(no_, _MObj) and (no_ is parts[other] or (no_.ci is parts[other].ci and no_.d == snap[other]))):
+                    ok = False
+        verdict[meth] = ok
+    return verdict
+
+
+def _hands_on_its_argument(ck, f, value, field):
+    """is `value` (an expression of modifier `f`, locals written out) the modifier's argument for every kind of argument: None,
+    an empty and a non-empty mapping as themselves or copied (context args); true / false with the same truth (the prevent flag)"""
+    params = f.fi.params[1:]
+    if value is None or not params:
+        return False
+    kinds = (("none", None, None), ("empty", False, False), ("full", False, True)) if field == "context_args" else (("true", False, True), ("false", False, False))
+    try:
+        for p_ in params:
+            fine = True
+            for kind, none, truth in kinds:
+                v = None if kind == "none" else _Sym("the argument", none=none, truth=truth)
+                runs = explore(ck, f.qual, lambda rd: rd.ev(value, {q: (v if q == p_ else _Sym("another argument")) for q in params}, f.fi))
+                for r, rd in runs:
+                    if r is _RAISES:
+                        fine = False
+                    elif field == "context_args":
+                        fine = fine and rd.denotes(r, v)
+                    else:
+                        fine = fine and rd.known_truth(r) is truth
+            if fine:
+                return True
+    except AnalysisError:
+        return False
+    return False
 
 
 def check(ck):
@@ -2719,6 +2801,9 @@ def check(ck):
             if not (isinstance(e, ast.Call) and A.norm(e.func) in ("InvocationContext", "type(self)", "self.__class__")):
                 return False
             # (the two parts handed over as `**<a mapping built at run time>`: not written in the call, no verdict)
+            if (any(k.arg is None for k in e.keywords) or any(isinstance(a_, ast.Starred) for a_ in e.args)) and held is not None and held.get("scopes"):
+                # read for the values the two parts hold (R7 (c))
+                return bool(held["scopes"].get(f.fi.node.name))
             ck.need(not any(k.arg is None for k in e.keywords) and not any(isinstance(a_, ast.Starred) for a_ in e.args),
                     "%s: the new context is built from the */** of a computed collection (`%s`)" % (f.qual, A.short(e, 60)))
             a0, a1 = A.arg_or_kw(e, 0, "recursive"), A.arg_or_kw(e, 1, "local")
@@ -2764,7 +2849,7 @@ def check(ck):
                     e = ast.Call(func=ast.Attribute(value=ast.parse("self.context", mode="eval").body, attr="update_recursive", ctx=ast.Load()),
                                  args=list(r0.args), keywords=list(r0.keywords))
             okw = isinstance(e, ast.Call) and A.call_attr(e) == "update_recursive" and A.norm(A.call_recv(e)) == "self.context" \
-                and A.const_str(A.arg_or_kw(e, 0, "key")) == field and A.norm(strip_cast(A.arg_or_kw(e, 1, "value"))) in f.fi.params[1:] \
+                and A.const_str(A.arg_or_kw(e, 0, "key")) == field and (A.norm(strip_cast(A.arg_or_kw(e, 1, "value"))) in f.fi.params[1:] or _hands_on_its_argument(ck, f, A.arg_or_kw(e, 1, "value"), field)) \
                 and len([c for c in f.calls("update_recursive") if A.const_str(A.arg_or_kw(c, 0, "key")) == field]) <= 1
             # and the clone is what the modifier returns
             okw = okw and any(r.value is not None and "call:clone_with" in f.deps(r.value) for r in f.returns() if f.nodes(r))
